@@ -52,3 +52,202 @@ Proof.
     + split; [reflexivity|]. split; [reflexivity|]. rewrite D2, EB.
       destruct (m14_bad R), (m14_bad S), (m14_bad m0), c2; reflexivity.
 Qed.
+
+(** ** the half checked at command returns: the relation [FRel] *)
+Definition rvals (k : list instr) : list Z :=
+  flat_map (fun i => match i with IUnlock _ (URet (RVal v)) => [v] | _ => [] end) k.
+Definition spend (q : Z) (k : list instr) : list Z :=
+  flat_map (fun i => match i with ILock _ (LPqSend p x) => if p =? q then [x] else [] | _ => [] end) k.
+(** instructions that will still produce the return value of a worker command *)
+Definition pr (i : instr) : bool :=
+  match i with
+  | ILock _ (LPqRecv _) | ICvReacq _ | ILock _ (LPqLSend _ _) | ILock _ (LPqCancelGet _) | IUnlock _ (URet _) => true
+  | _ => false
+  end.
+Definition prcount (k : list instr) : nat := length (filter pr k).
+Definition wcmd (c : cmd) : Prop := match c with CRecv | CLSend _ | CCancel => True | _ => False end.
+(** the value in transit to the worker: taken from the queue, not yet returned by [recv] *)
+Definition rtransit (x : thread) : list Z :=
+  rvals (tcont x) ++ match tcur x, tret x with Some CRecv, RVal v => [v] | _, _ => [] end.
+(** a return value that the monitor flags for a command that began after the drop *)
+Definition okret (c : cmd) (v : retv) : Prop :=
+  match c, v with CRecv, RVal _ => False | CLSend _, RBool true => False | CCancel, RBool false => False | _, _ => True end.
+Definition is_late (m : m14) (t : tid) : Prop := get_tid t (m14_late m) = Some true.
+
+(** pending inside a step: a [psend] / [pdrop] command that fails immediately *)
+Inductive fpend := FNone | FSendBad (t : tid) (q x : Z) | FDropBad (t : tid) (q : Z).
+Definition dps (p : fpend) (m : m14) : list (Z * Z) :=
+  match p with FSendBad _ _ _ => removelast (m14_psend m) | _ => m14_psend m end.
+
+Record FRel (p : fpend) (st : wstate) (m : m14) : Prop := {
+  f_psend : forall t q x, p = FSendBad t q x ->
+            tcur (thr st t) = Some (CPSend q x) /\ tcont (thr st t) = [] /\ exists old, m14_psend m = old ++ [(q, x)];
+  f_pdrop : forall t q, p = FDropBad t q -> tcur (thr st t) = Some (CPDrop q) /\ tcont (thr st t) = [];
+  f_noex : forall q, pexists (pps st q) = false ->
+           on_pipe q (dps p m) = [] /\ on_pipe q (m14_recvd m) = [] /\ psendq (pps st q) = [] /\ pcancel (pps st q) = false /\
+           memZ q (m14_dropped m) = false /\ phandle (pps st q) = false /\ spend q (mcont st) = [];
+  f_drop : forall q, memZ q (m14_dropped m) = true -> pcancel (pps st q) = true;
+  f_late : forall t, wkr st t -> is_late m t -> pcancel (pps st (tpipe (thr st t))) = true;
+  f_ok : forall t c, wkr st t -> is_late m t -> tcur (thr st t) = Some c ->
+         okret c (tret (thr st t)) /\ forall m0 v, In (IUnlock m0 (URet v)) (tcont (thr st t)) -> okret c v;
+  f_ps : forall u, wkr st u -> let q := tpipe (thr st u) in
+         on_pipe q (dps p m) = on_pipe q (m14_recvd m) ++ rtransit (thr st u) ++ psendq (pps st q) ++ spend q (mcont st);
+  f_own_send : forall t m0 q x, In (ILock m0 (LPqSend q x)) (tcont (thr st t)) -> t = main /\ tcur (thr st t) = Some (CPSend q x);
+  f_sendret : forall t q x, tcur (thr st t) = Some (CPSend q x) -> tret (thr st t) = RUnit;
+  f_dropcmd : forall t q, tcur (thr st t) = Some (CPDrop q) -> p <> FDropBad t q ->
+              (exists m0, In (ILock m0 (LPqCancelSet q)) (tcont (thr st t))) \/ pcancel (pps st q) = true;
+  f_own_cs : forall t m0 q, In (ILock m0 (LPqCancelSet q)) (tcont (thr st t)) -> tcur (thr st t) = Some (CPDrop q);
+  f_own_ret : forall t m0 v, In (IUnlock m0 (URet v)) (tcont (thr st t)) ->
+              exists c, tcur (thr st t) = Some c /\ (wcmd c \/ (exists a b, c = CSend a b) \/ (exists a, c = CClosed a)) /\
+                        (forall z, v = RVal z -> c = CRecv /\ wkr st t);
+  f_own_pr : forall t i, In i (tcont (thr st t)) ->
+             (forall m0 q, i = ILock m0 (LPqRecv q) \/ i = ICvReacq q -> wkr st t /\ tcur (thr st t) = Some CRecv /\ q = tpipe (thr st t)) /\
+             (forall m0 q, i = ILock m0 (LPqCancelGet q) -> wkr st t /\ tcur (thr st t) = Some CCancel /\ q = tpipe (thr st t));
+  f_pr : forall t c, tcur (thr st t) = Some c -> wcmd c ->
+         (prcount (tcont (thr st t)) <= 1)%nat /\ ((1 <= prcount (tcont (thr st t)))%nat -> tret (thr st t) = RUnit) }.
+
+(** the fields of the monitor this half looks at *)
+Record f14_same (m m' : m14) : Prop := {
+  fs_psend : m14_psend m' = m14_psend m; fs_recvd : m14_recvd m' = m14_recvd m;
+  fs_dropped : m14_dropped m' = m14_dropped m; fs_late : m14_late m' = m14_late m }.
+Lemma f14_same_refl : forall m, f14_same m m.
+Proof. intro m. constructor; reflexivity. Qed.
+Lemma f14_same_trans : forall a b c, f14_same a b -> f14_same b c -> f14_same a c.
+Proof. intros a b c [A1 A2 A3 A4] [B1 B2 B3 B4]. constructor; etransitivity; eassumption. Qed.
+
+Definition f14_plain (e : wevent) : Prop :=
+  match e with
+  | ECmd (CPSend _ _) | ECmd (CLSend _) | ECmd CRecv | ECmd CCancel | ERet _ => False
+  | _ => True
+  end.
+Lemma m14r_fplain_step : forall m t e, f14_plain e -> f14_same m (m14r_step m (t, e)).
+Proof.
+  intros m t e H. constructor; unfold m14r_step, m14_step; destruct e; cbn in H; try contradiction; cbn; try reflexivity;
+    try (destruct c; try contradiction; cbn; try reflexivity; destruct (get_tid t (m14_owner m)); reflexivity);
+    try (destruct (get_tid t (m14_owner m)); reflexivity).
+Qed.
+Lemma m14r_fplain_fold : forall t ev m, (forall e, In e ev -> f14_plain e) -> f14_same m (fold_left m14r_step (evs t ev) m).
+Proof.
+  induction ev as [|e ev IH]; intros m H; [apply f14_same_refl|]. cbn [evs map fold_left]. fold (evs t ev).
+  eapply f14_same_trans; [apply (m14r_fplain_step m t e); apply H; left; reflexivity|]. apply IH. intros; apply H; right; auto.
+Qed.
+
+Lemma f_msame : forall p st m m', FRel p st m -> f14_same m m' -> FRel p st m'.
+Proof.
+  intros p st m m' R [M1 M2 M3 M4].
+  assert (Dp : dps p m' = dps p m) by (unfold dps; rewrite M1; reflexivity).
+  assert (La : forall t, is_late m' t <-> is_late m t) by (intro t; unfold is_late; rewrite M4; tauto).
+  constructor.
+  - rewrite M1. apply (f_psend _ _ _ R).
+  - apply (f_pdrop _ _ _ R).
+  - rewrite Dp, M2, M3. apply (f_noex _ _ _ R).
+  - rewrite M3. apply (f_drop _ _ _ R).
+  - intros t W L. apply La in L. apply (f_late _ _ _ R t W L).
+  - intros t c W L. apply La in L. apply (f_ok _ _ _ R t c W L).
+  - rewrite Dp, M2. apply (f_ps _ _ _ R).
+  - apply (f_own_send _ _ _ R).
+  - apply (f_sendret _ _ _ R).
+  - apply (f_dropcmd _ _ _ R).
+  - apply (f_own_cs _ _ _ R).
+  - apply (f_own_ret _ _ _ R).
+  - apply (f_own_pr _ _ _ R).
+  - apply (f_pr _ _ _ R).
+Qed.
+
+(** ** what an instruction that is irrelevant for this half does *)
+Definition fq (j : instr) : Prop :=
+  match j with
+  | ILock _ (LPqSend _ _) | ILock _ (LPqCancelSet _) | ILock _ (LPqRecv _) | ICvReacq _ | ILock _ (LPqLSend _ _)
+  | ILock _ (LPqCancelGet _) | IUnlock _ (URet _) | IUnlock _ (UChPush _ _) => False
+  | _ => True
+  end.
+Definition fpsame (st st' : wstate) : Prop :=
+  forall q, psendq (pps st' q) = psendq (pps st q) /\ pcancel (pps st' q) = pcancel (pps st q) /\
+            phandle (pps st' q) = phandle (pps st q) /\ pexists (pps st' q) = pexists (pps st q).
+Definition chan_lock (i : instr) : Prop := (exists m0 c x, i = ILock m0 (LChSend c x)) \/ (exists m0 c, i = ILock m0 (LChClosed c)).
+Definition fq' (i j : instr) : Prop :=
+  fq j \/ (chan_lock i /\ ((exists m0 b, j = IUnlock m0 (URet (RBool b))) \/ (exists m0 c x, j = IUnlock m0 (UChPush c x)))).
+
+Record feff (st st' : wstate) (t : tid) (i : instr) (r : list instr) : Prop := {
+  fe_pp : fpsame st st';
+  fe_new : exists new, tcont (thr st' t) = new ++ r /\ forall j, In j new -> fq' i j }.
+
+Ltac fe_pp := let q := fresh "q" in let E := fresh "E" in
+  intro q; cbn; unfold updZ; try (destruct (q =? _) eqn:E; [apply Z.eqb_eq in E; subst q|]); cbn; repeat split; reflexivity.
+Ltac fe_q := let j := fresh "j" in let Hj := fresh "Hj" in
+  intros j Hj; cbn in Hj; repeat (destruct Hj as [<-|Hj]); try contradiction; left; exact Logic.I.
+Ltac fe NEW := constructor; [fe_pp | exists NEW; split; [thr_simpl|fe_q]].
+
+Lemma exec_instr_feff : forall st t i r st' ev,
+  CInv (core st) -> tcont (thr st t) = i :: r -> fq i -> exec_instr st t i r = (st', ev) -> feff st st' t i r.
+Proof.
+  intros st t i r st' ev I Hc Hi H.
+  destruct i; cbn [exec_instr] in H.
+  - destruct k; cbn [exec_climb] in H; inversion H; subst; clear H.
+    + destruct (bitmap_join a b (bmbase st bm)) as [x|]; [destruct (slab_get (sl st) x)|];
+        (destruct (leaf st bm a =? 0); [fe [IClimb (KSum bm a)]|fe (@nil instr)]).
+    + destruct (summ st bm =? 0); [fe [IClimb (KTop bm)]|fe (@nil instr)].
+    + destruct (top st =? 0); [fe [IClimb KCb]|fe (@nil instr)].
+    + fe (@nil instr).
+  - inversion H; subst; clear H. fe [IBms (flat_map (bms_of_slot st) (bits_of (top st)))].
+  - destruct bms; inversion H; subst; clear H.
+    + fe [IBms []].
+    + fe [ILeaves z (bits_of (summ st z)); IBms bms].
+  - destruct ls; [inversion H; subst; clear H; fe [ILeaves bm []]|].
+    destruct (collect (bmbase st bm) z (leaf st bm z)) as [bits ok].
+    match type of H with context [ghost_collect ?S0 bits] =>
+      destruct (ghost_collect_sl bits S0) as [A1 [A2 [A3 [A4 [A5 [A6 [A7 A8]]]]]]]; remember (ghost_collect S0 bits) as s3 eqn:Es3 end.
+    cbn zeta in *. inversion H; subst st' ev; clear H.
+    constructor.
+    + intro q. cbn. rewrite A7. cbn. repeat split; reflexivity.
+    + exists [ILeaves bm ls]. split; [|fe_q]. cbn -[Nat.eqb]. unfold updN, th. rewrite A8. cbn -[Nat.eqb]. unfold updN, th. rewrite !Nat.eqb_refl. reflexivity.
+  - inversion H; subst; clear H. fe [IRun].
+  - inversion H; subst; clear H. fe [IHandlers bits].
+  - inversion H; subst; clear H. fe [IDels bits].
+  - (* lock *)
+    match type of H with context [exec_lact ?S0 t ?aa ?rr] => destruct (exec_lact S0 t aa rr) as [s2 e2] eqn:E; set (s1 := S0) in * end.
+    inversion H; subst st' ev; clear H.
+    destruct a; cbn [exec_lact] in E; cbn in Hi; try contradiction.
+    + destruct (climb_reserved s1 bm) as [i0|] eqn:Ecl; inversion E; subst s2 e2.
+      * apply climb_at_climb in Ecl. destruct Ecl as [k ->]. unfold s1. fe [IClimb k; IUnlock MDL UNone].
+      * unfold s1. fe [IUnlock MDL UNone].
+    + unfold ghost_handler in E. inversion E; subst s2 e2. unfold s1. fe [IUnlock MDL (UDels (dl st))].
+    + inversion E; subst s2 e2. unfold s1. fe [IUnlock (MCh c) (UChReg c)].
+    + assert (Cl : chan_lock (ILock m (LChSend c m0))) by (left; eauto).
+      destr_all E; repeat match goal with E0 : climb_start _ _ _ = Some _ |- _ => apply climb_at_climb in E0; destruct E0 as [? ->] end;
+        inversion E; subst s2 e2; unfold s1; (constructor; [fe_pp|]).
+      * exists [IClimb x; IUnlock (MCh c) (UChPush c m0)]. split; [thr_simpl|]. intros j [<-|[<-|[]]]; [left; exact Logic.I|right; split; [exact Cl|right; eauto]].
+      * exists [IUnlock (MCh c) (UChPush c m0)]. split; [thr_simpl|]. intros j [<-|[]]. right; split; [exact Cl|right; eauto].
+      * exists [IUnlock (MCh c) (UChPush c m0)]. split; [thr_simpl|]. intros j [<-|[]]. right; split; [exact Cl|right; eauto].
+      * exists [IUnlock (MCh c) (URet (RBool false))]. split; [thr_simpl|]. intros j [<-|[]]. right; split; [exact Cl|left; eauto].
+    + inversion E; subst s2 e2. unfold s1. constructor; [fe_pp|].
+      exists [IUnlock (MCh c) (URet (RBool (negb (copen (chs st c)))))]. split; [thr_simpl|]. intros j [<-|[]]. right; split; [right; eauto|left; eauto].
+    + destruct (copen (chs s1 c)) eqn:Eo; inversion E; subst s2 e2; unfold s1.
+      * fe [ILock MDL (LPush (wbit (cw (chs st c))) (wbm (cw (chs st c))) (HChan c)); IUnlock (MCh c) (UChClear c)].
+      * fe [IUnlock (MCh c) (UChClear c)].
+    + unfold ghost_handler in E. inversion E; subst s2 e2. unfold s1.
+      destruct del; fe [IUnlock (MCh c) (UFwd c (if copen (chs st c) then cq (chs st c) else []))].
+    + unfold ghost_handler in E. inversion E; subst s2 e2. unfold s1.
+      destruct del; [fe [IUnlock (MPq p) (UPqFwd p (precvq (pps st p)) (Some (ppanic (pps st p))))]
+                    |fe [IUnlock (MPq p) (UPqFwd p (precvq (pps st p)) None)]].
+    + inversion E; subst s2 e2. unfold s1. fe [IUnlock (MPq p) UNone].
+  - (* unlock *)
+    destruct (exec_uact st t a r) as [s1 e1] eqn:E. inversion H; subst st' ev; clear H.
+    destruct a; cbn [exec_uact] in E; inversion E; subst s1 e1; clear E; cbn in Hi; try contradiction; try (fe (@nil instr); fail).
+    fe [IDels l].
+  - inversion H; subst; clear H. fe (@nil instr).
+  - destruct Hi.
+  - inversion H; subst st' ev; clear H.
+    match goal with |- feff st (set_cont (fold_left ?f ?us st) t r) _ _ _ =>
+      assert (D : pps (fold_left f us st) = pps st);
+      [clear; generalize us; intro us0; revert st; induction us0 as [|v us0 IH]; intro st; [reflexivity|];
+       cbn [fold_left]; rewrite IH; reflexivity|];
+      set (s1 := fold_left f us st) in * end.
+    constructor.
+    + intro q. cbn. rewrite D. repeat split; reflexivity.
+    + exists (@nil instr). split; [thr_simpl|fe_q].
+  - unfold ghost_handler in H. inversion H; subst st' ev; clear H.
+    destruct del; constructor; try fe_pp; exists (@nil instr); (split; [thr_simpl|fe_q]).
+  - inversion H; subst; clear H. fe (@nil instr).
+  - inversion H; subst; clear H. fe (@nil instr).
+Qed.
